@@ -52,6 +52,18 @@ impl DnsRecordDyn {
     pub fn get_record_mut(&mut self) -> (r: &mut DnsRecord)
         ensures *r == old(self).rec(), final(self).rec() == *final(r), final(self).payload() == old(self).payload(),
     { unimplemented!() }
+    // contract of the trait default updated_refresh_time (unit lifetime) plus: nothing but the refresh mark is touched
+    #[verifier::external_body]
+    pub fn updated_refresh_time(&mut self, now: u64) -> (r: Option<u64>)
+        requires sane(old(self).rec()),
+        ensures
+            r is Some <==> (now < old(self).rec().expires && now >= old(self).rec().refresh),
+            r is Some ==> r->Some_0 == final(self).rec().refresh,
+            r is None ==> final(self).rec() == old(self).rec(),
+            final(self).rec() == (DnsRecord { refresh: final(self).rec().refresh, ..old(self).rec() }),
+            r is Some && old(self).rec().ttl >= 1 && mark_idx(old(self).rec()) < 4 ==> mark_idx(final(self).rec()) == mark_idx(old(self).rec()) + 1,
+            final(self).payload() == old(self).payload(),
+    { unimplemented!() }
     #[verifier::external_body]
     pub fn get_record(&self) -> (r: &DnsRecord) ensures *r == self.rec() { unimplemented!() }
     #[verifier::external_body]
